@@ -172,7 +172,12 @@ def to_wikitext(
                     )
                 )
             else:
-                parts.append("\n|{}\n".format(recurse(node.children)))
+                content = recurse(node.children)
+                if content.startswith(("-", "+", "}")):
+                    # "|-", "|+" and "|}" at the start of a line are the
+                    # row, caption and end-of-table markers
+                    content = " " + content
+                parts.append("\n|{}\n".format(content))
         elif kind == NodeKind.MAGIC_WORD:
             parts.append("\n{}\n".format(node.sarg))
         elif kind == NodeKind.HTML:
